@@ -890,6 +890,11 @@ def main():
         gens += rs2lean_dispatch.generators(args.repo)
     except ImportError:
         pass
+    try:
+        import rs2lean_ctors
+        gens += rs2lean_ctors.generators(args.repo)
+    except ImportError:
+        pass
     for name, g in gens:
         try:
             content = g(world)
